@@ -62,6 +62,12 @@ FIXED = [
     ("gfa2", ["S\tA\t6\t*", "S\tB\t5\t*", "S\tC\t3\t*", "E\te1\tA+\tB+\t4\t6$\t0\t2\t2M", "E\te2\tC-\tB-\t0\t2\t3\t5$\t2M",
               "E\te3\tC+\tA+\t1\t3$\t0\t2\t*", "O\to\tA+ B+ e2-", "O\to2\te2- C+ e3+", "O\to3\te3- o-", "O\to4\to+ e3+ A+ e1+",
               "O\to5\tB- e3- C-", "U\tu\tA o3", "U\tu2\tu e2 o4", "U\tu3\tB o5 u2"]),
+    # edges written to-side first (sid2 is the GFA1 from-segment) and contained-first, with asymmetric CIGARs and traces;
+    # links stored in the direction that is not canonical; a path over each
+    ("gfa2", ["S\tA\t6\tACGTAC", "S\tB\t5\t*", "S\tC\t3\tACG", "E\te1\tB+\tA+\t0\t2\t3\t6$\t2M1D", "E\te2\tC-\tB+\t1\t3$\t3\t5$\t1M1I1M",
+              "E\te3\tC+\tA-\t0\t3$\t1\t4\t2M1I", "E\t*\tB-\tA-\t3\t5$\t0\t2\t1I2M", "O\to\tA+ e1+ B+", "O\to2\tB- e1- A-"]),
+    ("gfa1", ["S\tA\tACGTAC", "S\tB\t*\tLN:i:5", "L\tB\t-\tA\t-\t2M1D", "L\tB\t+\tA\t-\t1I2M\tID:Z:l2", "C\tB\t-\tA\t+\t0\t1M1I1M",
+              "P\tp\tA+,B+\t1I2M", "P\tq\tB-,A-\t*"]),
 ]
 
 NAMES = ["A", "B", "C", "D"]
@@ -165,8 +171,14 @@ def gen_doc(rng):
                 if at_end:
                     return "%d\t%d$" % (n - k, n)
                 return "0\t%d" % k
-            if kind == "dove":
+            if kind == "dove" and rng.chance(0.4):
+                # written to-side first: sid1 is aligned by its oriented prefix, sid2 by its oriented suffix
+                i1, i2 = iv(lens[a], oa, rl, False), iv(lens[b], ob, ql, True)
+            elif kind == "dove":
                 i1, i2 = iv(lens[a], oa, rl, True), iv(lens[b], ob, ql, False)
+            elif kind == "cont" and rng.chance(0.4):
+                # the contained segment first
+                i1, i2 = "0\t%d$" % lens[a], "1\t%d" % (1 + min(ql, lens[b] - 2))
             elif kind == "cont":
                 i1, i2 = "1\t%d" % (1 + min(rl, lens[a] - 2)), "0\t%d$" % lens[b]
             else:
@@ -274,7 +286,32 @@ def gen_groups(rng, segs, enames, L):
         L.append("U\t%s\t%s" % (gid, " ".join(items)) + (rnd_tags(rng) if rng.chance(0.2) else ""))
 
 
+def gen_queued(rng):
+    """lines that stay in the queue of a Gfa of unknown version: GFA1 L/C/P lines (no S, no VN header), or custom records"""
+    segs = rng.sample(NAMES, rng.pick([2, 3]))
+    o = lambda: rng.pick("+-")
+    L = []
+    if rng.chance(0.8):
+        for _ in range(rng.pick([1, 2, 3])):
+            a, b = rng.pick(segs), rng.pick(segs)
+            L.append("L\t%s\t%s\t%s\t%s\t%s" % (a, o(), b, o(), rng.pick(["*", "3M", "2M1I"])))
+        if rng.chance(0.5):
+            L.append("C\t%s\t+\t%s\t-\t1\t*" % (segs[0], segs[1]))
+        if rng.chance(0.5):
+            f = L[0].split("\t")
+            L.append("P\tp1\t%s%s,%s%s\t*" % (f[1], f[2], f[3], f[4]))
+    else:
+        L.append("X\tcustom\tfield")
+    if rng.chance(0.3):
+        L.append("# comment")
+    rng.shuffle(L)
+    return L
+
+
 def gen_case(rng, tier, i):
+    if i % 12 == 11:
+        return {"kind": "queued", "version": None, "lines": gen_queued(rng), "vlevel": rng.pick([0, 1, 1, 2, 3]),
+                "calls": [(rng.randrange(10 ** 6), rng.randrange(10 ** 6)) for _ in range(25)]}
     ver, L = gen_doc(rng)
     n = 40 if tier == "quick" else 200
     return {"kind": "random", "version": ver, "lines": L, "vlevel": rng.pick([0, 0, 1, 2, 3]),
@@ -291,7 +328,7 @@ def tags(case):
     if case["kind"] == "sweep":
         return ["sweep", "fixed%d" % case["fixed"], "v%d" % case["vlevel"]]
     rts = sorted({l[0] for l in case["lines"]})
-    return ["random", case["version"], "v%d" % case["vlevel"]] + ["rt:" + r for r in rts]
+    return [case["kind"], str(case["version"]), "v%d" % case["vlevel"]] + ["rt:" + r for r in rts]
 
 
 def signature(case, failure):
@@ -580,6 +617,8 @@ def snapshot(gfapy, g, held):
             if i < len(ls):
                 texts.append(t)
         parts.append(("gfa", "\n".join(texts)))        # what str(gfa) is: the join of its lines
+        parts.append(("version", repr(g.version)))
+        parts.append(("names", repr(sorted(str(n) for n in g.names))))
     except Exception as e:
         parts.append(("lines", "<raised %s>" % e.__class__.__name__))
     for i, (lab, o) in enumerate(held):
